@@ -26,7 +26,10 @@ def state(path):
 def good_regions(rng, fmt):
     frame = 'image' if fmt == 'fits' else rng.choice(('fk5', 'icrs', 'galactic'))
     kinds = {'ds9': ('circle', 'ellipse', 'rectangle', 'point'), 'crtf': ('circle', 'ellipse', 'rectangle'), 'fits': ('circle', 'ellipse', 'point', 'rectangle')}[fmt]
-    return [make_region(rng.choice(kinds), frame, rng, 12.5, {}, {}) for _ in range(rng.randint(1, 3))]
+    regs = [make_region(rng.choice(kinds), frame, rng, 12.5, {}, {}) for _ in range(rng.randint(1, 3))]
+    if fmt != 'fits' and rng.random() < 0.4:
+        regs[0].meta['text' if fmt == 'ds9' else 'label'] = '\u03b1 Cen'          # labels need not be ASCII
+    return regs
 
 
 def bad_region(fmt, rng):
